@@ -42,6 +42,7 @@ def serial_rows(idx, method, members=2, collect=False):
     def run(interp, call, recv, args, kwargs):
         interp.record_call("run", recv.name)
         interp.record_call("run-args", (recv.name, dict(kwargs)))
+        interp.record_call("run-collecting", (recv.name, interp.store.get(f"{recv.name}.collecting")))
         # whatever the run keeps as unmatched lines is there from now on, also when the run ends with an exception
         interp.store[f"{recv.name}.unmatched"] = Obj(f"UNM:{recv.name}")
         if interp.choose(f"run({recv.name}) raises", [False, True], memo=False):
@@ -115,6 +116,7 @@ def byline_rows(idx, nlines=3, scenario="plain", collect=False, members=2):
         line = args[0]
         ln = line.text if isinstance(line, Residual) else str(line)
         interp.record_call("_consider_line", (recv.name, ln))
+        interp.record_call("consider-collecting", (recv.name, interp.store.get(f"{recv.name}.collecting")))
         if scenario == "abort":
             if interp.choose(f"consider({recv.name},{ln}) raises", [False, True], memo=False):
                 raise Raised("ValueError")
